@@ -415,6 +415,26 @@ def check(tier):
                        "original_case": c[:3000], "model_agrees_with_impl": tag == "same",
                        "broken": None if proof_ok else "Properties_C14.vo"})
 
+    # nested ownership (no Coq model: std::vector mirror as oracle, ASan/LSan on lifetimes): assignment /
+    # append whose right-hand side is an array held by an element of the destination itself
+    nexe, nmsg = vlib.build_cpp("drv_nested", "drv_nested.cpp")
+    n_nested = 0
+    if nexe is not None:
+        scripts = [",".join(str(rng.randrange(0, 50)) for _ in range(40)) for _ in range((1500 if tier == "quick" else 40000) * boost)]
+        nres, ncr = vlib.run_sharded(nexe, [], scripts, case_timeout=10)
+        n_nested = len(scripts)
+        nbad = [(sc, r) for sc, r in zip(scripts, nres) if not r.startswith("ok")]
+        for (sc, r) in nbad[:2]:
+            def still(u, r=r):
+                o, _ = vlib.run_sharded(nexe, [], [",".join(str(x) for x in u)], shards=1, case_timeout=10)
+                return bool(o) and not o[0].startswith("ok")
+            small = vlib.shrink_list([int(x) for x in sc.split(",")], still, max_steps=150)
+            o, cr = vlib.run_sharded(nexe, [], [",".join(str(x) for x in small)], shards=1, case_timeout=10)
+            rep.violation({"component": "Array<Node> with nested Array<Node> (cpp/drv_nested.cpp)", "case": ",".join(str(x) for x in small),
+                           "format": "script of choices: tree shape, then (op, index) pairs; ops: 0 root=Move(root[i].kids) 1 root=root[i].kids 2 root+=root[i].kids 4 root+=Move(root[i].kids) 5 root=Move(root[i].kids[j].kids)",
+                           "observed_impl": (o[0] if o else "")[:300], "oracle": "contents equal the std::vector mirror after every step and no sanitizer report",
+                           "sanitizer": (cr[0][1][-1500:] if cr else "")})
+
     # Memory::Copy / SetToZero: grid (self-judging against memcpy / memset semantics) + model samples
     glines, nlens = grid_lines(tier, rng)
     grid_bad = []
@@ -474,7 +494,8 @@ def check(tier):
             "modelled: every public operation of Array / String / StringStream / StringView listed in coq/SeqModel.v (aop, sop, top, vop) over a block heap; Memory::Copy between containers at cell granularity; ordering operators (<, <=, >, >=), Sort and Swap are not part of C14",
             "alignment / SIMD load-store behaviour of Memory::Copy / SetToZero: runtime only (exhaustive grid test), not proved"],
         "theorems": [{"name": n, "assumptions": a} for n, a in theorems],
-        "evaluations": len(cases) + grid_combos + n_mem_samples,
+        "evaluations": len(cases) + grid_combos + n_mem_samples + n_nested,
+        "nested_ownership_scripts (mirror oracle, not modelled in Coq)": n_nested,
         "distinct_nontrivial": nt,
         "rule": "seeded random operation histories (3..60 steps) over a pool of 3 objects per container kind, widths char/char16_t/char32_t, every step's contents compared with the extracted heap model and the list specification under ASan+UBSan with exact-fit growth; Memory::Copy/SetToZero: %d lengths x 32 x 32 misalignments in 3 builds (%s), guard bytes, exact-size source; non-trivial = history contains an operation involving two (possibly identical) objects" % (nlens, "full 0..4096" if tier != "quick" else "0..300 + sample up to 4096"),
         "samples": [cases[0][:400], cases[len(cases) // 2][:400], cases[-1][:400]],
